@@ -27,6 +27,9 @@ def run(ctx):
     from .c12 import r12a
 
     ctx.each(r12a, ctx, repo)
+    from . import c20 as _c20
+
+    ctx.each(_c20.r20e, ctx, repo)
     ctx.each(r13b, ctx, repo)
     ctx.each(r13c, ctx, repo)
     ctx.rule("R06a", "limits applied after the program stage: see C06 (shared rule)")
